@@ -40,6 +40,10 @@ func init() {
 var c16Sum = big.NewInt(0).Mul(big.NewInt(15000000+8000000+9000000+40000000), big.NewInt(1000000))
 
 func runC16(c *fw.Case) {
+	if c.Property == "C16" && c.Index%8 == 5 {
+		c16V1Probe(c)
+		return
+	}
 	r := c.R
 	nOwners := []int{0, 1, 5, 25, 25, 40, 60, 60, 150, 300}[r.Intn(10)]
 	if c.Tier != "thorough" && nOwners > 150 {
@@ -386,6 +390,10 @@ func runC16(c *fw.Case) {
 	}
 	if postLocked.Cmp(totalLocked) != 0 {
 		c.ViolateD("C16/total-locked-changed", map[string]string{"before": totalLocked.String(), "after": postLocked.String()}, "total locked over all pools changed from %s to %s", totalLocked, postLocked)
+	}
+	if got := app.CfevestingKeeper.GetParams(ctx).Denom; got != vd {
+		c.Violate("C16/vesting-denom-changed", "the vesting denomination was %s before the upgrade and is %s after it", vd, got)
+		c.Violate("C05/upgrade-vesting-denom-changed", "the vesting denomination was %s before the v1.2.0 upgrade and is %s after it: the pools are now counted in a denomination the module account does not hold", vd, got)
 	}
 	modBal := app.BankKeeper.GetBalance(ctx, authtypes.NewModuleAddress(vesttypes.ModuleName), vd).Amount.BigInt()
 	if modBal.Cmp(postLocked) != 0 {
